@@ -3,7 +3,7 @@ use std::{cell::Cell, fmt, future::Future, future::ready, num::NonZeroU16, rc::R
 use ntex_bytes::{ByteString, Bytes};
 use ntex_util::{channel::pool, future::Either, future::Ready};
 
-use crate::v3::shared::{Ack, AckType, MqttShared};
+use crate::v3::shared::{Ack, AckType, MqttShared, Waiter};
 use crate::v3::{codec, error::SendPacketError};
 use crate::{error::EncodeError, types::QoS};
 
@@ -55,7 +55,16 @@ impl MqttSink {
         } else {
             self.0.wait_readiness().map_or_else(
                 || Either::Left(ready(true)),
-                |rx| Either::Right(async move { rx.await.is_ok() }),
+                |rx| {
+                    let shared = self.0.clone();
+                    let waiter = Waiter::new(&shared, rx);
+                    Either::Right(async move {
+                        let ready = waiter.await.is_ok();
+                        // readiness check does not use send window slot
+                        shared.wake_waiter();
+                        ready
+                    })
+                },
             )
         }
     }
@@ -258,10 +267,9 @@ impl PublishBuilder {
 
             // handle client receive maximum
             if let Some(rx) = self.shared.wait_readiness() {
+                let waiter = Waiter::new(&self.shared, rx);
                 Either::Left(Either::Left(async move {
-                    if rx.await.is_err() {
-                        return Err(SendPacketError::Disconnected);
-                    }
+                    waiter.await?;
                     self.send_at_least_once_inner(payload).await
                 }))
             } else {
@@ -329,10 +337,9 @@ impl PublishBuilder {
 
             // handle client receive maximum
             if let Some(rx) = self.shared.wait_readiness() {
+                let waiter = Waiter::new(&self.shared, rx);
                 Either::Left(Either::Left(async move {
-                    if rx.await.is_err() {
-                        return Err(SendPacketError::Disconnected);
-                    }
+                    waiter.await?;
                     self.send_exactly_once_inner(payload).await
                 }))
             } else {
@@ -379,17 +386,14 @@ impl PublishBuilder {
             self.packet.qos = QoS::AtLeastOnce;
             self.packet.payload_size = size;
 
-            // handle client receive maximum
-            let fut = if let Some(rx) = self.shared.wait_readiness() {
-                Either::Left(Either::Left(async move {
-                    if rx.await.is_err() {
-                        return Err(SendPacketError::Disconnected);
-                    }
-                    self.stream_at_least_once_inner(tx).await
-                }))
-            } else {
-                Either::Left(Either::Right(self.stream_at_least_once_inner(tx)))
-            };
+            // handle client receive maximum, send window is checked
+            // at the time packet gets encoded
+            let fut = Either::Left(async move {
+                if let Some(rx) = self.shared.wait_readiness() {
+                    Waiter::new(&self.shared, rx).await?;
+                }
+                self.stream_at_least_once_inner(tx).await
+            });
             (fut, stream)
         }
     }
@@ -498,10 +502,8 @@ impl SubscribeBuilder {
             Err(SendPacketError::Disconnected)
         } else {
             // handle client receive maximum
-            if let Some(rx) = self.shared.wait_readiness()
-                && rx.await.is_err()
-            {
-                return Err(SendPacketError::Disconnected);
+            if let Some(rx) = self.shared.wait_readiness() {
+                Waiter::new(&self.shared, rx).await?;
             }
             let idx = self.id.unwrap_or_else(|| self.shared.next_id());
             let rx = self.shared.wait_response(idx, AckType::Subscribe)?;
@@ -583,10 +585,8 @@ impl UnsubscribeBuilder {
             Err(SendPacketError::Disconnected)
         } else {
             // handle client receive maximum
-            if let Some(rx) = shared.wait_readiness()
-                && rx.await.is_err()
-            {
-                return Err(SendPacketError::Disconnected);
+            if let Some(rx) = shared.wait_readiness() {
+                Waiter::new(&shared, rx).await?;
             }
             // allocate packet id
             let idx = self.id.unwrap_or_else(|| shared.next_id());
